@@ -44,14 +44,14 @@ theorem casesCons_claims (sp p : Nat) (d : Bool) (t : Kids) (body : Stmts) (r : 
     (ihb : ∀ x, PreK body.positions x → LClaims body (visitStmts body x).info)
     (ihr : ∀ x, PreK r.positions x → (stopsEnd x.sc.end_ = true → x.info.ur sp = true) → CClaims r sp (visitCases r x).info) :
     CClaims (.cons p d t body r) sp (visitCases (.cons p d t body r) a).info := by
-  have hf' : (t.okF = true ∧ body.inF = true) ∧ r.inF = true := by simpa [Cases.inF] using hf
+  have hf' : ((t.okF = true ∧ t.pure = true) ∧ body.inF = true) ∧ r.inF = true := by simpa [Cases.inF] using hf
   have h3 := Split3.of hpre.nodup
   simp only [Cases.upos, List.mem_append, not_or] at hsp
   have hpre0 : PreK (t.positions ++ (body.positions ++ r.positions)) a :=
     hpre.sub (fun q hq => List.mem_cons_of_mem _ hq) (List.nodup_cons.mp hpre.nodup).2
   -- the test
   have hkt := ihk a hpre0.left
-  have hK := visitKids_ok t a hf'.1.1 hpre0.left
+  have hK := visitKids_ok t a hf'.1.1.1 hf'.1.1.2 hpre0.left
   have fr1 : ∀ q, q ∉ t.positions → (visitKids t a).info q = a.info q := fun q hq => Kids.info_frame t a q hq
   have ur1 : (visitKids t a).info.ur sp = a.info.ur sp := Kids.ur_frame t a sp hsp.1
   have he1 : (visitKids t a).sc.end_ = a.sc.end_ := hK.end_
